@@ -64,7 +64,7 @@ func VerifC16Worker() {
 		switch verifrt.IntRange("action", 0, 3) {
 		case 1: // application writes
 			actions++
-			n := []int{1, maxPayloadLength, maxPayloadLength + 1, 2}[verifrt.Pick("write_len_class", 0, verifrt.Param("write_classes")-1)]
+			n := []int{1, maxPayloadLength + 1, maxPayloadLength, 2}[verifrt.Pick("write_len_class", 0, verifrt.Param("write_classes")-1)]
 			b := verifrt.Bytes("write", n)
 			if len(c.workerWrChan) == maxChanBacklog {
 				return // the real Write would block here until the worker drains the queue
